@@ -60,3 +60,34 @@ Example C18_example :
   exists rg', r_hist 0 10 [OMoveNext; OMoveNext; OCurrent; OMoveNext] (r_fresh 0 s) tt
               = Some (rg', tt, [RBool true; RPanicked 99; RVal 1; RPanicked 99]).
 Proof. eexists. vm_compute. reflexivity. Qed.
+
+(* ---- compiled generators, end to end (rewriter model + machine model of seq.go) ----
+   If the source coroutine, driven by a consumer, panics with value pv after k values have been
+   delivered and in user world u (the world of Sem.v is (u, k)), then the consumer's MoveNext / Current
+   loop over the generator object of the machine panics with the same value, after the same k
+   deliveries — i.e. out of the advance that ran the panicking statement, not an earlier or later one —
+   and in the same user world (nothing else of the body has run).  Fragment and side conditions as in
+   Props_C01.v. *)
+From Verif Require Import Syntax Sem Rewrite Side C01Main Link LinkMachine.
+Theorem C18_compiled_panic_locality_partial :
+  forall (U V P : Type)
+         (aden : nat -> U -> outcome U P unit) (cden : nat -> U -> outcome U P bool)
+         (tden : nat -> U -> outcome U P nat) (kval : nat -> nat) (yden : nat -> U -> outcome U P V)
+         (env : nat -> V -> U -> U * bool) (zeroV : V)
+         (body : list stmt),
+    c01_hyps body = true ->
+    exists out, rewrite body = OK out /\
+      (forallb (lk KS) out = true ->
+       forall n u0 u k pv,
+         run_source aden cden tden kval yden env n body u0 = Some (FPanicked (u, k) pv) ->
+         exists M, forall N F, M <= N -> M <= F ->
+           machine_target U V P aden cden tden kval yden env zeroV KS out u0 N F = Some (FPanicked (u, k) pv)).
+Proof.
+  intros U V P aden cden tden kval yden env zeroV body Hh.
+  destruct (compiler_correct_hyps U V P aden cden tden kval yden env body Hh) as [out [Ho Hsim]].
+  exists out. split; [exact Ho|]. intros Hlk n u0 u k pv Hs.
+  assert (Hns : FPanicked (u, k) pv <> (@FStuck U P)) by discriminate.
+  destruct (Hsim n u0 (FPanicked (u, k) pv) Hs Hns) as [m Hm].
+  exact (machine_link U V P aden cden tden kval yden env zeroV KS out m u0 (FPanicked (u, k) pv) Hlk Hm Hns).
+Qed.
+Print Assumptions C18_compiled_panic_locality_partial.
